@@ -160,7 +160,7 @@ func flCfg(kindNo int, nums ...string) string {
 }
 
 func init() {
-	register(&kind{name: "dhcp4pool", header: "run_freelist",
+	register(&kind{name: "dhcp4pool", header: "run_freelist_checked",
 		cfg: func(c Case) string { return flCfg(1, c.Base, itoa(c.PPL), itoa(c.ResLo), itoa(c.ResHi), c.Gw) },
 		mk: func(c Case) (pool, error) {
 			p, err := dhcp.NewPool(dhcp.PoolConfig{ID: 1, Name: "p", Network: cidr(bigOf(c.Base), 32, c.PPL),
@@ -171,7 +171,7 @@ func init() {
 			return &dhcp4Pool{p}, nil
 		},
 		gen: func(r *vh.Rng, th bool) []Case { return genFreeList(r, th, "dhcp4pool") }})
-	register(&kind{name: "v6addr", header: "run_freelist",
+	register(&kind{name: "v6addr", header: "run_freelist_checked",
 		cfg: func(c Case) string { return flCfg(2, c.Base, itoa(c.PPL)) },
 		mk: func(c Case) (pool, error) {
 			p, err := dhcpv6.NewAddressPool(cidr(bigOf(c.Base), 128, c.PPL), 3600, 7200)
@@ -181,7 +181,7 @@ func init() {
 			return &v6AddrPool{p}, nil
 		},
 		gen: func(r *vh.Rng, th bool) []Case { return genFreeList(r, th, "v6addr") }})
-	register(&kind{name: "v6prefix", header: "run_freelist",
+	register(&kind{name: "v6prefix", header: "run_freelist_checked",
 		cfg: func(c Case) string { return flCfg(3, c.Base, itoa(c.PPL), itoa(c.PL)) },
 		mk: func(c Case) (pool, error) {
 			p, err := dhcpv6.NewPrefixPool(cidr(bigOf(c.Base), 128, c.PPL), uint8(c.PL), 3600, 7200)
@@ -191,7 +191,7 @@ func init() {
 			return &v6PrefixPool{p, c.PL}, nil
 		},
 		gen: func(r *vh.Rng, th bool) []Case { return genFreeList(r, th, "v6prefix") }})
-	register(&kind{name: "pppoe", header: "run_freelist",
+	register(&kind{name: "pppoe", header: "run_freelist_checked",
 		cfg: func(c Case) string { return flCfg(4, c.Base, itoa(c.PPL), c.Gw, itoa(pppoeIdem())) },
 		mk: func(c Case) (pool, error) {
 			p, err := pppoe.NewIPPool(cidr(bigOf(c.Base), 32, c.PPL), ipOfInt(bigOf(c.Gw), 32).String())
@@ -201,7 +201,7 @@ func init() {
 			return &pppoePool{p}, nil
 		},
 		gen: func(r *vh.Rng, th bool) []Case { return genFreeList(r, th, "pppoe") }})
-	register(&kind{name: "localpool", header: "run_freelist",
+	register(&kind{name: "localpool", header: "run_freelist_checked",
 		cfg: func(c Case) string { return flCfg(5, c.Base, itoa(c.PPL), c.Gw) },
 		mk: func(c Case) (pool, error) {
 			p, err := peerpool.NewPeerPool(peerpool.PeerPoolConfig{NodeID: "node-a", Network: cidr(bigOf(c.Base), 32, c.PPL),
